@@ -61,6 +61,9 @@ def array_failures(d, st=None):
     fr = frame_of(x)
     n2 = norm2(x)
     all_ket = not any(x.duals)
+    # the norm law is stated for labels as users give them (plain, ket-like); a label that is already conjugated
+    # (an array that contains a conjugated tensor) behaves like a bra leg and is outside the law
+    labels_ket = not any(o.dual for o in x.oddpos)
     rev = tuple(range(n - 1, -1, -1))
     keys = tuple(index_key(i) for i in x.indices)
     nontrivial = bool(x.oddpos) or any(x.duals)
@@ -87,7 +90,7 @@ def array_failures(d, st=None):
             elif not exact_equal(embed(xc), ref.arr):
                 fails.append((f"C10/conj[{tag}]/value", "conj differs from the R-graded bra"))
             # norms
-            if all_ket or pd:
+            if (all_ket or pd) and labels_ket:
                 for nm, fn in (("<conj x,x>", lambda: sr.tensordot(xc, x, n)), ("<x,conj x>", lambda: sr.tensordot(x, xc, n)),
                                ("<conj x,x>[blockwise]", lambda: sr.tensordot(xc, x, (tuple(range(n)), tuple(range(n))), mode="blockwise"))):
                     v = run(f"norm[{tag}]", fn)
@@ -102,7 +105,7 @@ def array_failures(d, st=None):
                         fails.append((f"C10/dagger-vs-conj-transpose/{tag}/structure", ""))
                     elif not exact_equal(embed(xd), embed(want)):
                         fails.append((f"C10/dagger-vs-conj-transpose/{tag}/value", f"dagger({tag}) differs from conj({tag}).transpose(reversed)"))
-            if all_ket or pd:
+            if (all_ket or pd) and labels_ket:
                 for nm, fn in (("<dagger x,x>", lambda: sr.tensordot(xd, x, (tuple(range(n)), rev))), ("<x,dagger x>", lambda: sr.tensordot(x, xd, (rev, tuple(range(n)))))):
                     v = run(f"norm-dagger[{tag}]", fn)
                     if v is not None and scalar_of(v) != n2:
@@ -208,7 +211,13 @@ def array_stream(ctx, sym, n):
         menu, sp, ph, charges = "m3", "le1", "probe", "all"
     else:
         menu, sp, ph, charges = ("m3" if ctx.thorough else "m2"), "probe", "probe0", "two"
-    return U.arrays(sym, n, menu, "a", charges, sp, ferm=True, phases=ph, label=6)
+    for j, d in enumerate(U.arrays(sym, n, menu, "a", charges, sp, ferm=True, phases=ph, label=6)):
+        yield d
+        if n <= 2 and j % 3 == 0:
+            # arrays that are themselves products of odd tensors: several labels (some already conjugated)
+            odd = d["oddpos"] is not None
+            for labs in (((1, False), (4, False), (6, False)), ((5, True), (2, False), (3, False))) if odd else (((1, False), (4, False)), ((3, True), (2, False))):
+                yield dict(d, oddpos=("L", labs))
 
 
 def groups(ctx):
